@@ -792,6 +792,35 @@ def write_rdfxml_rich(quads, style, ext_base=None):
                 emitted.add(K(r_))
                 tag += ' rdf:ID="%s"' % frag
                 break
+        if o_[0] in ("u", "b") and st.random() < 0.5:
+            # an empty property element with property attributes: the object's own statements (plain literals of one language,
+            # rdf:type) are attributes of the property element, which may carry its own xml:lang
+            k2 = K(o_)
+            props2 = blocks.get(k2)
+            if props2 and k2 not in emitted and (o_[0] == "u" or (refs.get(o_[1], 0) == 1 and o_[1] not in lists)):
+                lits = [(p2, o2) for p2, o2 in props2 if o2[0] == "l"]
+                types = [(p2, o2) for p2, o2 in props2 if p2[1] == RDF + "type" and o2[0] == "u"]
+                langs = {(o2[2] if len(o2) > 2 else None) for _, o2 in lits}
+                if (
+                    len(lits) + len(types) == len(props2)
+                    and len(types) <= 1
+                    and len(langs) <= 1
+                    and len({p2[1] for p2, _ in lits}) == len(lits)
+                    and not any((len(o2) > 3 and o2[3]) or p2[1].startswith(RDF) for p2, o2 in lits)
+                ):
+                    emitted.add(k2)
+                    lang2 = next(iter(langs)) if langs else scope
+                    a_ = "" if lang2 == scope else ' xml:lang="%s"' % (lang2 or "")
+                    if o_[0] == "u":
+                        a_ += ' rdf:resource="%s"' % _xml_esc(ref(o_[1], eff), True)
+                    elif st.random() < 0.5:
+                        a_ += ' rdf:nodeID="%s"' % o_[1]
+                    for p2, o2 in types:
+                        a_ += ' rdf:type="%s"' % _xml_esc(ref(o2[1], eff), True)
+                    for p2, o2 in lits:
+                        qn2, d2 = qname(p2[1])
+                        a_ += d2 + ' %s="%s"' % (qn2, _xml_esc(o2[1], True))
+                    return [ind + "<%s%s/>" % (tag, a_)]
         if o_[0] == "u":
             if o_[1] == RDF + "nil" and st.random() < 0.4:
                 return [ind + st.choice(['<%s rdf:parseType="Collection"/>' % tag, '<%s rdf:parseType="Collection"> </%s>' % (tag, qn)])]
@@ -1046,6 +1075,8 @@ def write_jsonld_compact(quads, style, ext_base=None):
                     d = {"@reverse": d["@id"]}
                 if kind == "plain" and st.random() < 0.5:
                     d = d["@id"]
+                elif kind not in ("reverse",) and st.random() < 0.2:
+                    d["@context"] = {"unused2": "http://ex.org/unused2"}  # a property-scoped context that changes nothing
                 ctx[name] = d
                 terms.setdefault(p_, []).append((name, kind, arg))
     junk = None
@@ -1170,6 +1201,9 @@ def write_jsonld_compact(quads, style, ext_base=None):
                 else:
                     r_ = n_.setdefault(A("@reverse"), {})
                     r_.setdefault(compact(p_[1], True), []).append(sv)
+            if st.random() < 0.2:
+                # a local context that defines one more (unused) term: everything else stays as the enclosing context says
+                n_["@context"] = st.choice([{"unused": "http://ex.org/unused"}, [{"unused": {"@id": "http://ex.org/unused", "@type": "@id"}}], {}])
             if junk and st.random() < 0.3:
                 n_[junk] = st.choice(["dropped", {"@id": "http://ex.org/dropped"}, 5])
             if not vocab and st.random() < 0.15:
